@@ -1,1 +1,293 @@
-(* placeholder: to be written *)
+(** C17 — Price discovery: phase rules, penalty schedule, pro-rata redemption, price floor.
+    Statements only; proofs are in Proofs/PriceDiscoveryProofs.v.
+
+    Reading guide.  [wf_cfg c] = a configuration [init] accepts (0 <= min% <= max% < 100%, fixed% < 100%,
+    durations >= 0 — durations 0 and 1 are ordinary instances).  [Inv s] = the ledger invariant, which
+    holds in every state reachable from any accepted deployment by any history ([C17_reach]).
+    [b_nl_end], [b_lin_end], [b_end] are the documented phase boundaries start+d1, +d2, +d3.
+    [floor_of q n d] says q = floor(n/d) by cross-multiplication (q*d <= n < (q+1)*d), so a statement
+    with [floor_of] is about the documented rational, not a restatement of the code's expression.
+    Sides: [true] = launched token / redeem nonce 1, [false] = accepted token / redeem nonce 2. *)
+From MX Require Import Base.Prelude Gen.Params Model.PriceDiscovery Proofs.PriceDiscoveryProofs.
+
+(** ------------------------------------------------------------------ phases *)
+(** get_current_phase is the documented piecewise function of the block height, for every block and
+    every accepted configuration (a duration 0 makes the interval empty: the phase is skipped). *)
+Theorem C17_phase : forall c b, wf_cfg c ->
+  exists ph, get_current_phase c b = Ok ph /\
+    (b < c_start c <-> ph = PhIdle) /\
+    (c_start c <= b < b_nl_end c <-> ph = PhNoPenalty) /\
+    (b_nl_end c <= b < b_lin_end c <-> exists pct, ph = PhLinear pct) /\
+    (b_lin_end c <= b < b_end c <-> ph = PhFixed (c_pfix c)) /\
+    (b_end c <= b <-> ph = PhRedeem).
+Proof. exact phase_by_block. Qed.
+Print Assumptions C17_phase.
+
+(** the phase index is monotone in the block height ... *)
+Theorem C17_phase_monotone : forall c b b' ph ph', wf_cfg c -> b <= b' ->
+  get_current_phase c b = Ok ph -> get_current_phase c b' = Ok ph' ->
+  phase_ix ph <= phase_ix ph'.
+Proof. exact phase_mono. Qed.
+Print Assumptions C17_phase_monotone.
+
+(** ... and along any history the block height never decreases and the configuration never changes,
+    so phases only advance. *)
+Theorem C17_phases_only_advance : forall s ops ph ph', Inv s ->
+  view_phase s = Ok ph -> view_phase (run s ops) = Ok ph' ->
+  phase_ix ph <= phase_ix ph' /\ p_block s <= p_block (run s ops) /\ p_cfg (run s ops) = p_cfg s.
+Proof. exact phases_only_advance. Qed.
+Print Assumptions C17_phases_only_advance.
+
+(** ------------------------------------------------------------------ gates *)
+(** deposits only in phases 1-2, withdrawals only in phases 1-3, redemptions only in phase 4 —
+    stated on the documented block intervals. *)
+Theorem C17_gates : forall s, wf_cfg (p_cfg s) ->
+  (forall c tok amt s' o, ep_deposit s c tok amt = Ok (s', o) ->
+     c_start (p_cfg s) <= p_block s < b_lin_end (p_cfg s)) /\
+  (forall c n amt s' o, ep_withdraw s c n amt = Ok (s', o) ->
+     c_start (p_cfg s) <= p_block s < b_end (p_cfg s)) /\
+  (forall c n amt s' o, ep_redeem s c n amt = Ok (s', o) ->
+     b_end (p_cfg s) <= p_block s).
+Proof. exact gates. Qed.
+Print Assumptions C17_gates.
+
+(** ------------------------------------------------------------------ penalty schedule *)
+(** Linear phase: percentage = min + floor((max-min) * blocks passed / (duration-1)), no increase for
+    a one-block phase; always within [min, max]. *)
+Theorem C17_penalty_linear : forall c b pct, wf_cfg c -> get_current_phase c b = Ok (PhLinear pct) ->
+  b_nl_end c <= b < b_lin_end c /\
+  (exists inc, pct = c_pmin c + inc /\
+     (c_dl c <= 1 -> inc = 0) /\
+     (1 < c_dl c -> floor_of inc ((c_pmax c - c_pmin c) * (b - b_nl_end c)) (c_dl c - 1))) /\
+  c_pmin c <= pct <= c_pmax c.
+Proof. exact penalty_linear. Qed.
+Print Assumptions C17_penalty_linear.
+
+(** it starts at min on the first block, reaches max on the last block, and never decreases in between *)
+Theorem C17_penalty_linear_shape : forall c, wf_cfg c -> 0 < c_dl c ->
+  get_current_phase c (b_nl_end c) = Ok (PhLinear (c_pmin c)) /\
+  (1 < c_dl c -> get_current_phase c (b_lin_end c - 1) = Ok (PhLinear (c_pmax c))) /\
+  (forall b b' p p', b <= b' -> get_current_phase c b = Ok (PhLinear p) ->
+     get_current_phase c b' = Ok (PhLinear p') -> p <= p').
+Proof. exact penalty_linear_shape. Qed.
+Print Assumptions C17_penalty_linear_shape.
+
+(** A withdrawal of [amt] redeem tokens: the percentage in force is 0 in the no-limit phase, the linear
+    one in the linear phase, the configured one in the fixed phase; penalty = floor(amt * pct / MAX);
+    the caller gets amt - penalty and both the tracked and the real balance fall by exactly that, so
+    the penalty stays in the pool; supply and the caller's redeem tokens fall by amt. *)
+Theorem C17_withdraw_penalty : forall s c n amt s' o,
+  Inv s -> ep_withdraw s c n amt = Ok (s', o) ->
+  exists l pct pen,
+    side_of_nonce n = Ok l /\ 0 <= amt <= held s l c /\
+    c_start (p_cfg s) <= p_block s < b_end (p_cfg s) /\
+    ((c_start (p_cfg s) <= p_block s < b_nl_end (p_cfg s) -> pct = 0) /\
+     (b_nl_end (p_cfg s) <= p_block s < b_lin_end (p_cfg s) ->
+        lin_pct_spec (p_cfg s) (p_block s) pct /\ c_pmin (p_cfg s) <= pct <= c_pmax (p_cfg s)) /\
+     (b_lin_end (p_cfg s) <= p_block s < b_end (p_cfg s) -> pct = c_pfix (p_cfg s))) /\
+    0 <= pct < MAXP /\
+    floor_of pen (amt * pct) MAXP /\ 0 <= pen <= amt /\
+    o = [amt - pen] /\
+    bal_tr s' l = bal_tr s l - (amt - pen) /\ bal_re s' l = bal_re s l - (amt - pen) /\
+    bal_tr s' (negb l) = bal_tr s (negb l) /\ bal_re s' (negb l) = bal_re s (negb l) /\
+    supply s' l = supply s l - amt /\ supply s' (negb l) = supply s (negb l) /\
+    held s' l c = held s l c - amt /\ (forall a, a <> c -> held s' l a = held s l a) /\
+    (forall a, held s' (negb l) a = held s (negb l) a).
+Proof. exact withdraw_char. Qed.
+Print Assumptions C17_withdraw_penalty.
+
+(** A deposit: the whole amount is added to the tracked and the real balance of its token, and the
+    same amount of redeem tokens of the matching nonce is minted to the caller. *)
+Theorem C17_deposit : forall s c tok amt s' o,
+  Inv s -> ep_deposit s c tok amt = Ok (s', o) ->
+  exists l,
+    side_of_token tok = Ok l /\ 0 <= amt /\ o = [amt] /\
+    c_start (p_cfg s) <= p_block s < b_lin_end (p_cfg s) /\
+    bal_tr s' l = bal_tr s l + amt /\ bal_re s' l = bal_re s l + amt /\
+    bal_tr s' (negb l) = bal_tr s (negb l) /\ bal_re s' (negb l) = bal_re s (negb l) /\
+    supply s' l = supply s l + amt /\ supply s' (negb l) = supply s (negb l) /\
+    held s' l c = held s l c + amt /\ (forall a, a <> c -> held s' l a = held s l a) /\
+    (forall a, held s' (negb l) a = held s (negb l) a) /\
+    0 < p_lb s'.
+Proof. exact deposit_char. Qed.
+Print Assumptions C17_deposit.
+
+(** ------------------------------------------------------------------ tracked balances = real holdings *)
+(** Every reachable state, any history of any length by any accounts from any accepted deployment. *)
+Theorem C17_reach : forall cur decimals minp start dn dl df pmin pmax pfix s0 ops,
+  init_pd cur decimals minp start dn dl df pmin pmax pfix = Ok s0 -> Inv (run s0 ops).
+Proof. exact reach_inv. Qed.
+Print Assumptions C17_reach.
+
+Theorem C17_step : forall s op s' o, Inv s -> step s op = Ok (s', o) -> Inv s'.
+Proof. exact step_preserves. Qed.
+Print Assumptions C17_step.
+
+(** Before the redeem phase (i.e. throughout the deposit/withdraw phases, and Idle) the tracked
+    balances equal the contract's real holdings, and the recorded redeem supply is exactly what
+    circulates; at all times the real holdings are non-negative and never exceed the tracked ones. *)
+Theorem C17_tracked : forall cur decimals minp start dn dl df pmin pmax pfix s0 ops,
+  init_pd cur decimals minp start dn dl df pmin pmax pfix = Ok s0 ->
+  let s := run s0 ops in
+  p_block s < b_end (p_cfg s) ->
+  p_lb s = p_rl s /\ p_ab s = p_ra s /\ p_s1 s = asum (p_h1 s) /\ p_s2 s = asum (p_h2 s).
+Proof. exact reach_tracked. Qed.
+Print Assumptions C17_tracked.
+
+Theorem C17_tracked_inv : forall s, Inv s ->
+  (p_block s < b_end (p_cfg s) ->
+     p_lb s = p_rl s /\ p_ab s = p_ra s /\ p_s1 s = asum (p_h1 s) /\ p_s2 s = asum (p_h2 s)) /\
+  0 <= p_rl s <= p_lb s /\ 0 <= p_ra s <= p_ab s /\
+  asum (p_h1 s) <= p_s1 s /\ asum (p_h2 s) <= p_s2 s.
+Proof. exact tracked_inv. Qed.
+Print Assumptions C17_tracked_inv.
+
+(** ------------------------------------------------------------------ redemption *)
+(** A redemption of [amt] redeem tokens of a nonce pays floor(opposite pool * amt / total supply of the
+    nonce); pools and supplies stay frozen; the tokens are taken from the caller (they must be owned,
+    and are gone afterwards: each pays exactly once); only the real holding of the opposite token moves. *)
+Theorem C17_redeem : forall s c n amt s' o,
+  Inv s -> ep_redeem s c n amt = Ok (s', o) ->
+  exists l q,
+    side_of_nonce n = Ok l /\ 0 <= amt <= held s l c /\
+    b_end (p_cfg s) <= p_block s /\
+    0 < supply s l /\ floor_of q (bal_tr s (negb l) * amt) (supply s l) /\ 0 <= q /\
+    o = [q] /\
+    p_lb s' = p_lb s /\ p_ab s' = p_ab s /\ p_s1 s' = p_s1 s /\ p_s2 s' = p_s2 s /\
+    bal_re s' (negb l) = bal_re s (negb l) - q /\ bal_re s' l = bal_re s l /\
+    held s' l c = held s l c - amt /\ (forall a, a <> c -> held s' l a = held s l a) /\
+    (forall a, held s' (negb l) a = held s (negb l) a).
+Proof. exact redeem_char. Qed.
+Print Assumptions C17_redeem.
+
+(** in the redeem phase nothing but redemptions (and token transfers) can succeed, so pools and
+    supplies are frozen for good: deposits and withdrawals are rejected at every later block *)
+Theorem C17_frozen_in_redeem : forall s, wf_cfg (p_cfg s) -> b_end (p_cfg s) <= p_block s ->
+  (forall c tok amt, is_ok (ep_deposit s c tok amt) = false) /\
+  (forall c n amt, is_ok (ep_withdraw s c n amt) = false).
+Proof. exact frozen_in_redeem. Qed.
+Print Assumptions C17_frozen_in_redeem.
+
+(** a holder's redemption never fails (in particular never for lack of funds) *)
+Theorem C17_redeem_succeeds : forall s c n amt l,
+  Inv s -> b_end (p_cfg s) <= p_block s -> side_of_nonce n = Ok l -> 0 < amt <= held s l c ->
+  is_ok (ep_redeem s c n amt) = true.
+Proof. exact redeem_succeeds. Qed.
+Print Assumptions C17_redeem_succeeds.
+
+(** Total payouts over ANY history from any accepted deployment — any interleaving of deposits,
+    withdrawals, block advances, transfers of redeem tokens and redemptions in any order by any accounts:
+    [paid s0 ops n] is the sum of the payments returned by the successful redemptions of nonce n.
+    It equals what has left the pool, is at most the pool's share of the tokens burned so far
+    (paid * supply <= pool * (supply - circulating)), hence never exceeds the pool. *)
+Theorem C17_redeem_total : forall cur decimals minp start dn dl df pmin pmax pfix s0 ops,
+  init_pd cur decimals minp start dn dl df pmin pmax pfix = Ok s0 ->
+  let s := run s0 ops in
+  paid s0 ops NA * p_s2 s <= p_lb s * (p_s2 s - asum (p_h2 s)) /\
+  paid s0 ops NL * p_s1 s <= p_ab s * (p_s1 s - asum (p_h1 s)) /\
+  paid s0 ops NA <= p_lb s /\ paid s0 ops NL <= p_ab s /\
+  paid s0 ops NA = p_lb s - p_rl s /\ paid s0 ops NL = p_ab s - p_ra s.
+Proof. exact reach_redeem_total. Qed.
+Print Assumptions C17_redeem_total.
+
+(** the same from any invariant state (e.g. the state at the start of the redeem phase) *)
+Theorem C17_redeem_total_from : forall s ops, Inv s ->
+  let s' := run s ops in
+  (paid s ops NA + deficit s true) * p_s2 s' <= p_lb s' * (p_s2 s' - asum (p_h2 s')) /\
+  (paid s ops NL + deficit s false) * p_s1 s' <= p_ab s' * (p_s1 s' - asum (p_h1 s')) /\
+  paid s ops NA + deficit s true <= p_lb s' /\
+  paid s ops NL + deficit s false <= p_ab s' /\
+  0 <= p_rl s' /\ 0 <= p_ra s'.
+Proof. exact redeem_total. Qed.
+Print Assumptions C17_redeem_total_from.
+
+(** the arithmetic core by induction over redemption lists: floors of pro-rata shares of amounts that
+    together do not exceed the supply never add up to more than the pool *)
+Theorem C17_sum_of_shares : forall P S l, 0 <= P -> 0 < S -> Forall (fun a => 0 <= a) l -> zsum l <= S ->
+  zsum (map (fun a => P * a / S) l) <= P.
+Proof. exact sum_floors_le. Qed.
+Print Assumptions C17_sum_of_shares.
+
+(** ------------------------------------------------------------------ price and price floor *)
+(** getCurrentPrice = floor(accepted * precision / launched), defined only with launched > 0;
+    the precision is 10^decimals for decimals 0..18. *)
+Theorem C17_price : forall s p, view_price s = Ok p ->
+  0 < p_lb s /\ floor_of p (p_ab s * c_prec (p_cfg s)) (p_lb s).
+Proof. exact price_view_char. Qed.
+Print Assumptions C17_price.
+
+Theorem C17_price_precision : forall cur decimals minp start dn dl df pmin pmax pfix s0 ops,
+  init_pd cur decimals minp start dn dl df pmin pmax pfix = Ok s0 ->
+  c_prec (p_cfg (run s0 ops)) = 10 ^ decimals /\ 0 <= decimals <= PD_MAX_TOKEN_DECIMALS.
+Proof. exact price_precision. Qed.
+Print Assumptions C17_price_precision.
+
+(** any withdrawal that would leave the price below the minimum is rejected (both directions) *)
+Theorem C17_floor_withdraw : forall s c n amt s' o,
+  ep_withdraw s c n amt = Ok (s', o) ->
+  exists p, view_price s' = Ok p /\ c_minp (p_cfg s') <= p.
+Proof. exact withdraw_floor. Qed.
+Print Assumptions C17_floor_withdraw.
+
+Theorem C17_floor_withdraw_rejected : forall s c n amt ph l,
+  get_current_phase (p_cfg s) (p_block s) = Ok ph -> side_of_nonce n = Ok l ->
+  let w := amt - amt * penalty_of ph / MAXP in
+  let lb' := if l then p_lb s - w else p_lb s in
+  let ab' := if l then p_ab s else p_ab s - w in
+  ab' * c_prec (p_cfg s) / lb' < c_minp (p_cfg s) ->
+  is_ok (ep_withdraw s c n amt) = false.
+Proof. exact withdraw_floor_rejects. Qed.
+Print Assumptions C17_floor_withdraw_rejected.
+
+(** Launched-token deposits.  FULL CLAUSE of the property text:
+      "a launched-token deposit that would leave the price below the configured minimum is rejected", i.e.
+      ep_deposit s c TOK_L amt = Ok (s', o) -> exists p, view_price s' = Ok p /\ c_minp <= p.
+    PROVED (partial): the resulting price is at/above the minimum OR EXACTLY ZERO; a deposit that would
+    leave it strictly between zero and the minimum is rejected.
+    MISSING, and false of the code: the case where the resulting price rounds to zero — see
+    [C17_floor_launched_deposit_refuted]. *)
+Theorem C17_floor_launched_deposit_partial : forall s c amt s' o,
+  ep_deposit s c TOK_L amt = Ok (s', o) ->
+  exists p, view_price s' = Ok p /\ (p = 0 \/ c_minp (p_cfg s') <= p).
+Proof. exact deposit_floor. Qed.
+Print Assumptions C17_floor_launched_deposit_partial.
+
+Theorem C17_floor_launched_deposit_rejected_partial : forall s c amt,
+  0 < p_ab s * c_prec (p_cfg s) / (p_lb s + amt) < c_minp (p_cfg s) ->
+  is_ok (ep_deposit s c TOK_L amt) = false.
+Proof. exact deposit_floor_rejects. Qed.
+Print Assumptions C17_floor_launched_deposit_rejected_partial.
+
+(** The full clause is false of the faithful model (and of the contract: the harness replays this
+    history): in a reachable state with accepted liquidity, a positive minimum price and the price
+    at/above it, a large launched-token deposit is ACCEPTED and leaves the price at 0 < minimum. *)
+Theorem C17_floor_launched_deposit_refuted :
+  exists s c amt s' o p,
+    Inv s /\ 0 < c_minp (p_cfg s) /\ 0 < p_ab s /\
+    view_price s = Ok p /\ c_minp (p_cfg s) <= p /\
+    ep_deposit s c TOK_L amt = Ok (s', o) /\ view_price s' = Ok 0.
+Proof. exact zero_price_escape. Qed.
+Print Assumptions C17_floor_launched_deposit_refuted.
+
+(** ------------------------------------------------------------------ non-vacuity
+    A concrete deployment (6 decimals, penalties 10%..50% linear over 3 blocks, 25% fixed) taken through
+    all phases: deposits by three accounts, a withdrawal in the linear phase (30% -> 70 of 100), one in
+    the fixed phase (25% of 101 -> floor 25 -> 76), then redemptions in several orders incl. transferred
+    tokens.  Every operation succeeds; payouts 250312 + 625782 + 123904 = 999998 <= pool 1000000. *)
+Definition c17_example_ops : list pdop :=
+  [Tick 1; Deposit 100 TOK_L 1000000; Deposit 1 TOK_A 300; Deposit 2 TOK_A 700; Tick 3;
+   Withdraw 1 NA 100; Tick 2; Withdraw 2 NA 101; Tick 2;
+   Redeem 1 NA 200; Redeem 100 NL 1000000; Xfer 2 3 NA 99; Redeem 2 NA 500; Redeem 3 NA 99].
+
+Example C17_nonvacuous :
+  match init_pd 1 6 0 2 2 3 2 1000000000000 5000000000000 2500000000000 with
+  | Ok s0 =>
+      let s := run s0 c17_example_ops in
+      forallb (fun k => is_ok (step (run s0 (firstn k c17_example_ops)) (nth k c17_example_ops (Tick 0))))
+              (seq 0 (length c17_example_ops)) = true /\
+      view_phase s = Ok PhRedeem /\ p_block s = 9 /\
+      p_lb s = 1000000 /\ p_ab s = 854 /\ p_rl s = 2 /\ p_ra s = 0 /\ p_s2 s = 799 /\
+      paid s0 c17_example_ops NA = 999998 /\ paid s0 c17_example_ops NL = 854
+  | Err _ => False
+  end.
+Proof. vm_compute. repeat split. Qed.
